@@ -41,9 +41,3 @@ var proxyCloserEntries = []closerEntry{
 	{key: "grpcproxy.(*remoteGrpcProxyCache).UploadFile", owned: []string{"item.Rc"}, policy: "always"},
 }
 
-func init() {
-	register(&PropCheck{ID: "C12", Explanation: "debug", Trusted: commonTrusted, Run: func(c *Ctx) {
-		all := append(append(append([]closerEntry{}, diskCloserEntries...), proxyCloserEntries...), serverCloserEntries...)
-		runCloserRules(c, "R14d", all, 10, "closers are closed, returned or handed to an owner on every path")
-	}})
-}
